@@ -119,6 +119,7 @@ func (e *env) execDL(op []string) (string, bool) {
 			} else {
 				extra = " ch=" + strings.Join(ch, ",")
 			}
+			extra += fmt.Sprintf(" sz=%dx%d", s.Size.Width, s.Size.Height)
 		default:
 			ok = false
 		}
@@ -164,14 +165,33 @@ func genDyn(e *env, rng *gen.Rng) {
 	patterns := [][]int{{}, {1}, {3}, {1, 1}, {2, 1}, {1, 2, 3}, {3, 1, 2}, {1, 1, 1, 1}, {2, 3, 1, 2}}
 	for _, hs := range patterns {
 		for _, H := range []int{0, 1, 2, 3, 5} {
-			for _, cfg := range []string{"0 0", "0 1", "1 0"} {
+			for _, cfg := range []string{"0 0", "0 1", "1 0", "2 1"} {
 				if !r.Thorough && cfg != "0 0" && (H == 0 || H == 5) {
+					continue
+				}
+				if !r.Thorough && cfg == "2 1" && (len(hs) < 2 || H == 3) {
 					continue
 				}
 				draw := fmt.Sprintf("dl draw 4 %d", H)
 				alpha := []string{"dl next", "dl prev", "dl wheeldown", "dl wheelup", draw, fmt.Sprintf("dl setcursor %d", len(hs)-1), "dl pending -2"}
 				if len(hs) == 0 {
 					alpha[5] = "dl setcursor 0"
+				}
+				// item replacement: the builder shrinks to its first item (or grows by two rows of
+				// height 2 when it has at most one), and a builder with other heights
+				shrunk := []int{}
+				if len(hs) > 1 {
+					shrunk = hs[:1]
+				} else {
+					shrunk = append(append([]int{}, hs...), 2, 2)
+				}
+				other := make([]int, len(hs))
+				for i := range hs {
+					other[i] = 4 - hs[i]
+				}
+				alpha = append(alpha, "dl items "+hsStr(shrunk))
+				if len(hs) > 0 && (r.Thorough || cfg != "0 1") {
+					alpha = append(alpha, "dl items "+hsStr(other))
 				}
 				var rec func(seq []string, depth int)
 				rec = func(seq []string, depth int) {
@@ -189,7 +209,7 @@ func genDyn(e *env, rng *gen.Rng) {
 				rec(nil, maxLen)
 				if r.Thorough && len(hs) <= 2 && H <= 2 {
 					// length-5 histories on the smallest lists
-					alpha = alpha[:6]
+					alpha = append(alpha[:6:6], alpha[7])
 					rec(nil, 5)
 				}
 			}
@@ -229,6 +249,72 @@ func genDyn(e *env, rng *gen.Rng) {
 		run(ops)
 		r.Count("dl-scrollup")
 	}
+	// replacement family: gaps 0..3, heights 0..6, the builder is replaced often (shrinking below the
+	// top, growing, changing heights) between upward/downward scrolls and selection changes
+	repCases := 4000
+	if r.Thorough {
+		repCases = 60000
+	}
+	for c := 0; c < repCases; c++ {
+		mk := func() []int {
+			n := rng.Range(0, 9)
+			if rng.Chance(1, 3) {
+				n = rng.Range(0, 2)
+			}
+			hs := make([]int, n)
+			for i := range hs {
+				hs[i] = rng.Range(1, 4)
+				if rng.Chance(1, 10) {
+					hs[i] = 0
+				} else if rng.Chance(1, 8) {
+					hs[i] = rng.Range(5, 6)
+				}
+			}
+			return hs
+		}
+		hs := mk()
+		gap := rng.Range(0, 3)
+		H := rng.Range(1, 6)
+		if rng.Chance(1, 12) {
+			H = 0
+		}
+		ops := []string{fmt.Sprintf("dl new %d %d %s", gap, rng.Intn(2), hsStr(hs))}
+		if len(hs) > 0 {
+			ops = append(ops, fmt.Sprintf("dl setcursor %d", rng.Range(0, len(hs)-1)), fmt.Sprintf("dl draw 4 %d", H))
+		}
+		for k := rng.Range(2, 7); k > 0; k-- {
+			switch rng.Intn(6) {
+			case 0, 1:
+				hs = mk()
+				ops = append(ops, "dl items "+hsStr(hs))
+			case 2:
+				ops = append(ops, fmt.Sprintf("dl pending %d", -rng.Range(1, 7)))
+			case 3:
+				ops = append(ops, fmt.Sprintf("dl pending %d", rng.Range(1, 7)))
+			case 4:
+				ops = append(ops, "dl wheeldown")
+			default:
+				ops = append(ops, "dl wheelup")
+			}
+			if rng.Chance(2, 3) {
+				ops = append(ops, fmt.Sprintf("dl draw 4 %d", H))
+			}
+			switch rng.Intn(4) {
+			case 0:
+				ops = append(ops, "dl next", fmt.Sprintf("dl draw 4 %d", H))
+			case 1:
+				ops = append(ops, "dl prev", fmt.Sprintf("dl draw 4 %d", H))
+			case 2:
+				if len(hs) > 0 {
+					ops = append(ops, fmt.Sprintf("dl setcursor %d", rng.Range(0, len(hs)-1)), fmt.Sprintf("dl draw 4 %d", H))
+				}
+			}
+		}
+		ops = append(ops, fmt.Sprintf("dl draw 4 %d", H))
+		run(ops)
+		r.Count("dl-replace")
+		r.Count(fmt.Sprintf("dl-replace-gap%d", gap))
+	}
 	// random long histories
 	cases := 3000
 	if r.Thorough {
@@ -251,8 +337,8 @@ func genDyn(e *env, rng *gen.Rng) {
 		}
 		hs := mk(n)
 		gap := 0
-		if rng.Chance(1, 4) {
-			gap = rng.Range(1, 2)
+		if rng.Chance(1, 2) {
+			gap = rng.Range(1, 3)
 		}
 		dc := 0
 		if rng.Chance(1, 3) {
@@ -279,7 +365,7 @@ func genDyn(e *env, rng *gen.Rng) {
 			case 10:
 				ops = append(ops, fmt.Sprintf("dl pending %d", rng.Range(-6, 6)))
 			case 11:
-				if rng.Chance(1, 3) {
+				if rng.Chance(2, 3) {
 					n = rng.Range(0, 12)
 					hs = mk(n)
 					ops = append(ops, "dl items "+hsStr(hs))
